@@ -262,6 +262,11 @@ def trace_part(chk, tier):
     finally:
         trace.SPELL_SEED = None
     trace.validate(chk, lines, 'Trace_Select', 'trace-lang')
+    # and against the implementation-shaped pipeline computed from the respelled TEXT (:lang() stored in the IR as data, evaluated by Lang.tla)
+    from harness import statedefs, tlc
+    if not os.path.basename(tlc.SPEC_DIR).startswith('verif_spec_'):
+        statedefs.use_tree_under_test()
+    trace.validate(chk, lines[::4] if tier == 'quick' else lines, 'Trace_Pipe', 'trace-lang-pipe', batch=300)
     for l in lines:
         e = json.loads(l)
         if e['res'] and e['res'] != [-2]:
